@@ -10,7 +10,7 @@ open TlxVerif.C11.BarM (countP_modify countP_modify_same)
 
 /-- states reachable under every schedule -/
 inductive Reachable (n gens : Nat) (y : Bool) : State → Prop
-  | init : Reachable n gens y (BarS.init n gens y)
+  | init (ay : Nat) : Reachable n gens y (BarS.init n gens y ay)
   | step {s t c o} : Reachable n gens y s → step s t c = some o → Reachable n gens y o.st
 
 /-! ### thread table accessors (as in Proofs/C11BarM.lean) -/
@@ -50,6 +50,8 @@ theorem pcOf_eq (s : State) (t : Nat) : pcOf s t = (getT s.thr t).pc := by
 @[simp] theorem upd_step (s : State) (t : Nat) (f : Thread → Thread) : (upd s t f).step = s.step := rfl
 @[simp] theorem upd_spawned (s : State) (t : Nat) (f : Thread → Thread) : (upd s t f).spawned = s.spawned := rfl
 @[simp] theorem upd_actions (s : State) (t : Nat) (f : Thread → Thread) : (upd s t f).actions = s.actions := rfl
+@[simp] theorem upd_begun (s : State) (t : Nat) (f : Thread → Thread) : (upd s t f).begun = s.begun := rfl
+@[simp] theorem upd_actYields (s : State) (t : Nat) (f : Thread → Thread) : (upd s t f).actYields = s.actYields := rfl
 @[simp] theorem upd_yielding (s : State) (t : Nat) (f : Thread → Thread) : (upd s t f).yielding = s.yielding := rfl
 
 theorem countP_eq_zero_of_getT {thr : List Thread} {p : Thread → Bool}
@@ -111,11 +113,13 @@ def isBar (s : State) (u : Nat) : Prop := 1 ≤ u ∧ u ≤ s.n
 
 /-- the thread is the releaser: between its completing `fetch_add` and its bump of `step_` -/
 def rel : Pc → Bool
-  | .storeWaiting | .bumpStep => true
+  | .storeWaiting | .act _ | .bumpStep => true
   | _ => false
 
 @[simp] theorem rel_storeWaiting : rel .storeWaiting = true := rfl
 @[simp] theorem rel_bumpStep : rel .bumpStep = true := rfl
+@[simp] theorem rel_act (j : Nat) : rel (.act j) = true := rfl
+@[simp] theorem rel_beginPc (s : State) : rel (beginPc s) = true := by unfold beginPc; split <;> rfl
 @[simp] theorem rel_start : rel .start = false := rfl
 @[simp] theorem rel_finished : rel .finished = false := rfl
 @[simp] theorem rel_mSpawn (i : Nat) : rel (.mSpawn i) = false := rfl
@@ -132,8 +136,12 @@ def pcOk (s : State) (th : Thread) : Prop :=
   | .fetchAdd ts => th.arrived = th.left ∧ th.left < s.gens ∧ ts = th.left
   | .spin ts _ => th.arrived = th.left + 1 ∧ th.left < s.gens ∧ ts = th.left
   | .yield ts => th.arrived = th.left + 1 ∧ th.left < s.gens ∧ ts = th.left
-  | .storeWaiting => th.arrived = th.left + 1 ∧ th.left < s.gens ∧ th.left = s.step ∧ s.waiting = s.n ∧ s.actions = s.step
-  | .bumpStep => th.arrived = th.left + 1 ∧ th.left < s.gens ∧ th.left = s.step ∧ s.waiting = 0 ∧ s.actions = s.step + 1
+  | .storeWaiting => th.arrived = th.left + 1 ∧ th.left < s.gens ∧ th.left = s.step ∧ s.waiting = s.n ∧ s.actions = s.step ∧
+      s.begun = s.step
+  | .act _ => th.arrived = th.left + 1 ∧ th.left < s.gens ∧ th.left = s.step ∧ s.waiting = 0 ∧ s.actions = s.step ∧
+      s.begun = s.step + 1
+  | .bumpStep => th.arrived = th.left + 1 ∧ th.left < s.gens ∧ th.left = s.step ∧ s.waiting = 0 ∧ s.actions = s.step + 1 ∧
+      s.begun = s.step + 1
   | .finished => th.arrived = th.left ∧ th.left = s.gens
   | .mSpawn _ | .mJoin _ => False
 
@@ -156,10 +164,11 @@ structure Inv (s : State) : Prop where
   relAll : ∀ x, isBar s x → rel (getT s.thr x).pc = true → ∀ u, isBar s u → (getT s.thr u).arrived = s.step + 1
   relUniq : ∀ x y, isBar s x → isBar s y → rel (getT s.thr x).pc = true → rel (getT s.thr y).pc = true → x = y
   noRel : (∀ x, isBar s x → rel (getT s.thr x).pc = false) →
-    s.waiting = s.thr.countP (fun th => decide (th.arrived = s.step + 1)) ∧ s.waiting < s.n ∧ s.actions = s.step
+    s.waiting = s.thr.countP (fun th => decide (th.arrived = s.step + 1)) ∧ s.waiting < s.n ∧ s.actions = s.step ∧
+      s.begun = s.step
 
-theorem getT_init (n gens u : Nat) (y : Bool) :
-    getT (BarS.init n gens y).thr u = if u ≤ n then { pc := .start } else dflt := by
+theorem getT_init (n gens u : Nat) (y : Bool) (ay : Nat) :
+    getT (BarS.init n gens y ay).thr u = if u ≤ n then { pc := .start } else dflt := by
   unfold getT BarS.init
   simp only [List.getD_eq_getElem?_getD]
   cases u with
@@ -170,7 +179,7 @@ theorem getT_init (n gens u : Nat) (y : Bool) :
     · simp [h]; omega
     · simp [h]; omega
 
-theorem inv_init (n gens : Nat) (y : Bool) (hn : 1 ≤ n) : Inv (BarS.init n gens y) := by
+theorem inv_init (n gens : Nat) (y : Bool) (ay : Nat) (hn : 1 ≤ n) : Inv (BarS.init n gens y ay) := by
   refine ⟨hn, by simp [BarS.init], ?_, ?_, ?_, ?_, ?_, ?_⟩
   · rw [getT_init]; simp [mainOk, BarS.init]
   · intro u hu; rw [getT_init]; simp [BarS.init, isBar] at hu ⊢; simp [hu.2]
@@ -186,7 +195,7 @@ theorem frame_step {s : State} {t c : Nat} {o} (h : step s t c = some o) :
 
 theorem isBar_of_pc {s : State} (hi : Inv s) {t : Nat} (hlt : t < s.thr.length)
     (hpc : match (getT s.thr t).pc with
-      | .loadStep | .fetchAdd _ | .storeWaiting | .bumpStep | .spin _ _ | .yield _ => True | _ => False) :
+      | .loadStep | .fetchAdd _ | .storeWaiting | .act _ | .bumpStep | .spin _ _ | .yield _ => True | _ => False) :
     isBar s t := by
   have hlen := hi.len
   by_cases h0 : t = 0
@@ -372,6 +381,25 @@ theorem pcs_step {s : State} {t c : Nat} {o} (h : step s t c = some o) (hi : Inv
     have h2 := hpc u hu
     simp only [upd_thr, getT_modify]
     by_cases hut : t = u
+    · subst hut
+      unfold beginPc beginEnded
+      split <;> simp [hlt, pcOk] <;> omega
+    · simp only [hut, false_and, if_false]
+      have hru : rel (getT s.thr u).pc = false := by
+        cases hr : rel (getT s.thr u).pc with
+        | false => rfl
+        | true => exact absurd (hi.relUniq t u hb hu hrt hr) hut
+      exact pcOk_of_not_rel (s := s) rfl hru h2
+  · -- the action ends: nobody else is the releaser
+    have hb : isBar s t := isBar_of_pc hi hlt (by simp [*])
+    have hpcT := (congrArg Thread.pc hth).trans ‹_ = Pc.act _›
+    have hrt : rel (getT s.thr t).pc = true := by simp [hpcT]
+    have hpt := hpc t hb
+    simp [pcOk, hpcT] at hpt
+    intro u hu
+    have h2 := hpc u hu
+    simp only [upd_thr, getT_modify]
+    by_cases hut : t = u
     · subst hut; simp [hlt, pcOk]; omega
     · simp only [hut, false_and, if_false]
       have hru : rel (getT s.thr u).pc = false := by
@@ -417,7 +445,8 @@ theorem pcs_step {s : State} {t c : Nat} {o} (h : step s t c = some o) (hi : Inv
 /-- the pre-state facts of a `fetch_add` step -/
 theorem fetchAdd_pre {s : State} (hi : Inv s) {t ts : Nat} (hb : isBar s t) (hpcT : (getT s.thr t).pc = .fetchAdd ts) :
     (getT s.thr t).arrived = s.step ∧ (∀ x, isBar s x → rel (getT s.thr x).pc = false) ∧
-    s.waiting = s.thr.countP (fun th => decide (th.arrived = s.step + 1)) ∧ s.waiting < s.n ∧ s.actions = s.step := by
+    s.waiting = s.thr.countP (fun th => decide (th.arrived = s.step + 1)) ∧ s.waiting < s.n ∧ s.actions = s.step ∧
+      s.begun = s.step := by
   have hpt := hi.pcs t hb
   simp [pcOk, hpcT] at hpt
   have hcur := pre_cur hi hb hpt.1
@@ -458,6 +487,14 @@ theorem relAll_step {s : State} {t c : Nat} {o} (h : step s t c = some o) (hi : 
        by_cases hut : t = u
        · subst hut; simp [hlt]; exact this
        · simp [hut]; exact this)
+    | -- the releaser stays the releaser (waiting_.store(0), inside the action): same arrivals
+      (intro x hx hrx u hu
+       have hb : isBar s t := isBar_of_pc hi hlt (by simp [*])
+       have := hra t hb (by rw [hth]; simp [*]) u hu
+       simp only [upd_thr, getT_modify, upd_step]
+       by_cases hut : t = u
+       · subst hut; simp [hlt]; exact this
+       · simp [hut]; exact this)
     | skip)
   · -- the completing fetch_add: by counting, everybody has arrived
     have hb : isBar s t := isBar_of_pc hi hlt (by simp [*])
@@ -490,15 +527,6 @@ theorem relAll_step {s : State} {t c : Nat} {o} (h : step s t c = some o) (hi : 
     · have := hnr x hx
       simp [hxt] at hrx
       rw [hrx] at this; simp at this
-  · -- waiting_.store(0): same releaser, same arrivals
-    intro x hx hrx u hu
-    have hb : isBar s t := isBar_of_pc hi hlt (by simp [*])
-    have hpcT := (congrArg Thread.pc hth).trans ‹_ = Pc.storeWaiting›
-    have := hra t hb (by simp [hpcT]) u hu
-    simp only [upd_thr, getT_modify, upd_step]
-    by_cases hut : t = u
-    · subst hut; simp [hlt]; exact this
-    · simp [hut]; exact this
   · -- step_.fetch_add(1): afterwards there is no releaser
     have hb : isBar s t := isBar_of_pc hi hlt (by simp [*])
     have hpcT := (congrArg Thread.pc hth).trans ‹_ = Pc.bumpStep›
@@ -567,7 +595,7 @@ theorem relUniq_step {s : State} {t c : Nat} {o} (h : step s t c = some o) (hi :
 theorem noRel_step {s : State} {t c : Nat} {o} (h : step s t c = some o) (hi : Inv s) :
     (∀ x, isBar o.st x → rel (getT o.st.thr x).pc = false) →
     o.st.waiting = o.st.thr.countP (fun th => decide (th.arrived = o.st.step + 1)) ∧ o.st.waiting < o.st.n ∧
-      o.st.actions = o.st.step := by
+      o.st.actions = o.st.step ∧ o.st.begun = o.st.step := by
   have hp := hi.bnd
   have hpc := hi.pcs
   have hlen := hi.len
@@ -578,7 +606,7 @@ theorem noRel_step {s : State} {t c : Nat} {o} (h : step s t c = some o) (hi : I
     have hth := getT_of_getElem? ‹s.thr[t]? = some _›)
   all_goals (first
     | (intro hno
-       simp only [upd_thr, getT_modify, upd_step, upd_waiting, upd_actions, upd_n] at hno ⊢
+       simp only [upd_thr, getT_modify, upd_step, upd_waiting, upd_actions, upd_begun, upd_n] at hno ⊢
        have hno' : ∀ x, isBar s x → rel (getT s.thr x).pc = false := by
          intro x hx
          have hx' := hno x hx
@@ -587,29 +615,24 @@ theorem noRel_step {s : State} {t c : Nat} {o} (h : step s t c = some o) (hi : I
          · simpa [hxt] using hx'
        rw [TlxVerif.C11.BarM.countP_modify_same _ _ (by intro x; rfl)]
        exact hnr hno')
+    | -- t is the releaser afterwards (completing fetch_add, waiting_.store(0), inside the action): nothing to show
+      (intro hno
+       exfalso
+       have hb : isBar s t := isBar_of_pc hi hlt (by simp [*])
+       have := hno t hb
+       simp [getT_modify, hlt] at this
+       done)
     | skip)
-  · -- the completing fetch_add makes t the releaser: nothing to show
-    intro hno
-    exfalso
-    have hb : isBar s t := isBar_of_pc hi hlt (by simp [*])
-    have := hno t hb
-    simp [getT_modify, hlt] at this
   · -- an ordinary arrival
     have hb : isBar s t := isBar_of_pc hi hlt (by simp [*])
     have hpcT := (congrArg Thread.pc hth).trans ‹_ = Pc.fetchAdd _›
     obtain ⟨hcur, hnr', hw, hwlt, hact⟩ := fetchAdd_pre hi hb hpcT
     have hcnt := countP_arrive hlt hcur (Pc.spin ‹Nat› false)
     intro _
-    simp only [upd_thr, upd_step, upd_waiting, upd_actions, upd_n]
+    simp only [upd_thr, upd_step, upd_waiting, upd_actions, upd_begun, upd_n]
     refine ⟨?_, ?_, hact⟩
     · rw [hw]; exact hcnt.symm
     · have := ‹¬s.waiting = s.n - 1›; simp; omega
-  · -- waiting_.store(0): t stays the releaser
-    intro hno
-    exfalso
-    have hb : isBar s t := isBar_of_pc hi hlt (by simp [*])
-    have := hno t hb
-    simp [getT_modify, hlt] at this
   · -- step_.fetch_add(1): nobody has arrived in the new generation
     have hb : isBar s t := isBar_of_pc hi hlt (by simp [*])
     have hpcT := (congrArg Thread.pc hth).trans ‹_ = Pc.bumpStep›
@@ -618,8 +641,8 @@ theorem noRel_step {s : State} {t c : Nat} {o} (h : step s t c = some o) (hi : I
     have hall := hi.relAll t hb (by simp [hpcT])
     have hn := hi.npos
     intro _
-    simp only [upd_thr, upd_step, upd_waiting, upd_actions, upd_n]
-    refine ⟨?_, by omega, by omega⟩
+    simp only [upd_thr, upd_step, upd_waiting, upd_actions, upd_begun, upd_n]
+    refine ⟨?_, by omega, by omega, by omega⟩
     simp only [hpt.2.2.2.1]
     symm
     apply countP_eq_zero_of_getT
@@ -650,13 +673,13 @@ theorem inv_step {s : State} {t c : Nat} {o} (h : step s t c = some o) (hi : Inv
 
 theorem reachable_inv {n gens : Nat} {y : Bool} (hn : 1 ≤ n) {s : State} (h : Reachable n gens y s) : Inv s := by
   induction h with
-  | init => exact inv_init n gens y hn
+  | init ay => exact inv_init n gens y ay hn
   | step _ hs ih => exact inv_step hs ih
 
 theorem reachable_params {n gens : Nat} {y : Bool} {s : State} (h : Reachable n gens y s) :
     s.n = n ∧ s.gens = gens ∧ s.yielding = y := by
   induction h with
-  | init => exact ⟨rfl, rfl, rfl⟩
+  | init ay => exact ⟨rfl, rfl, rfl⟩
   | step _ hs ih =>
     have := frame_step hs
     exact ⟨this.1.trans ih.1, this.2.1.trans ih.2.1, this.2.2.1.trans ih.2.2⟩
@@ -684,6 +707,35 @@ theorem actions_bounds {s : State} (hi : Inv s) :
     cases hp : (getT s.thr x).pc <;> simp [hp] at hpx hx
     all_goals (
       refine ⟨by omega, by omega, ?_⟩
+      intro u hu
+      have := hall u hu
+      omega)
+
+/-- `actions ≤ begun ≤ actions + 1`, `begun ≤ step + 1`, and the action of the current generation has begun only
+    if everybody arrived -/
+theorem begun_bounds {s : State} (hi : Inv s) :
+    s.actions ≤ s.begun ∧ s.begun ≤ s.actions + 1 ∧ s.begun ≤ s.step + 1 ∧
+      ∀ u, isBar s u → s.begun ≤ (getT s.thr u).arrived := by
+  by_cases hno : ∀ x, isBar s x → rel (getT s.thr x).pc = false
+  · have := hi.noRel hno
+    refine ⟨by omega, by omega, by omega, ?_⟩
+    intro u hu
+    have := hi.bnd u hu
+    omega
+  · have ⟨x, hx⟩ : ∃ x, isBar s x ∧ rel (getT s.thr x).pc = true := by
+      apply Classical.byContradiction
+      intro hne
+      apply hno
+      intro x hx
+      cases hr : rel (getT s.thr x).pc with
+      | false => rfl
+      | true => exact absurd ⟨x, hx, hr⟩ hne
+    have hall := hi.relAll x hx.1 hx.2
+    have hpx := hi.pcs x hx.1
+    unfold pcOk at hpx
+    cases hp : (getT s.thr x).pc <;> simp [hp] at hpx hx
+    all_goals (
+      refine ⟨by omega, by omega, by omega, ?_⟩
       intro u hu
       have := hall u hu
       omega)
